@@ -27,7 +27,7 @@ ID = "C12"
 LEVEL = "exploration"
 RULE = (
     "pool (~50 payloads, fixed per seed): the 28 fixture messages of all supported lists in frame and body form, generated lists of each vendor in both forms, Kaifa list-1 messages whose register "
-    "holds '(' / ')' octets, P1 blocks, junk (random bytes, truncated and mutated genuine messages, ASCII fragments). histories: ALL sequences of length <= 2 (quick) / <= 3 (thorough) over the pool, "
+    "holds '(' / ')' octets, P1 blocks, junk (random bytes, truncated and mutated genuine messages, ASCII fragments, well-formed lists of undocumented length, frames with other LLC octets, unknown OBIS, null / FF date-times). histories: ALL sequences of length <= 2 (quick) / <= 3 (thorough) over the pool, "
     "plus random histories up to length 30; each history runs on one AutoDecoder. evaluations = AutoDecoder calls checked; distinct non-trivial = distinct histories (enumerated ones by construction) "
     "containing >= 1 payload that some decoder accepts."
 )
@@ -67,6 +67,13 @@ def build_pool(seed: int):
         src = rng.choice(genuine)
         mut, kind = pool.mutate(rng, src[3])
         items.append((f"junk_{kind}_{i}_of_{src[0]}", None, "junk", mut, None))
+    seen_kinds = set()
+    for _ in range(200):
+        data, kind = pool.structured_junk(rng)
+        if kind not in seen_kinds or (kind == "llc_variant" and sum(1 for it in items if it[0].startswith("junk_llc_variant")) < 3):
+            seen_kinds.add(kind)
+            items.append((f"junk_{kind}_{len(items)}", None, "junk", data, None))
+    items.append(("junk_p1_infinite_value", None, "junk", b"1-0:1.7.0(9e9123*kW)\r\n", None))
     items.append(("junk_ascii_unbalanced", None, "junk", b"1-0:1.8.0(123", None))
     items.append(("junk_ascii_trailing", None, "junk", b"1-0:1.8.0(123)xyz", None))
     items.append(("junk_empty", None, "junk", b"", None))
